@@ -33,12 +33,21 @@ CHECKS["C13"] = dict(
           "inside on_leave; alphabet adds kept handles, disk-only (filter-rejected) inserts and flush(). Ledger: every admitted id "
           "leaves exactly once by the time the cache is dropped, with the reason the operation implies, is not returned by the "
           "re-entrant lookup, Evict-reason ids are offered to the pipe exactly once in that operation, Replace/Remove/Clear ids never. "
-          "Non-trivial = at least two different leave reasons occurred; distinct = hash of (configuration, op sequence)."),
+          "Non-trivial = at least two different leave reasons occurred; distinct = hash of (configuration, op sequence). "
+          "Multi-threaded part (c13mt): 2..4 (quick) / 2..7 (thorough) OS threads x 100..600 ops on one cache (5 algorithms with "
+          "variants, shards 1..4, capacity 3..12, keys 3..8; insert incl. filtered, get-and-hold, clone, drop, remove, touch, "
+          "evict_all, resize, clear); after join + clear + drop the conservation laws over unique insert ids are checked: exactly "
+          "one leave event per admitted id, none for unknown ids, Evict ids offered to the pipe exactly once, Replace/Remove/Clear "
+          "ids never, filtered ids exactly once, re-entrant lookup never returns the leaving id, reasons need a cause in the "
+          "history; distinct = hash of the observed order of leave events. Thorough adds ThreadSanitizer and Miri runs."),
     exhaustive_part="every sequence of depth 3 (quick) / 4 (thorough) over the C13 alphabet, 5 algorithms",
     assumptions=MEMSEQ_ASSUME + ["disk-only (phantom) entries are judged on their single pipe offer only, not on the number of notifications"],
     min_nontrivial=50,
     jobs=[dict(cmd="memseq", args={"prop": "C13"}, tiers=["quick", "thorough"], timeout=1500),
-          dict(cmd="memseq", args={"prop": "C13"}, flavour="miri", tier_arg="miri", tiers=["thorough"], timeout=3000)],
+          dict(cmd="memseq", args={"prop": "C13"}, flavour="miri", tier_arg="miri", tiers=["thorough"], timeout=3000),
+          dict(cmd="c13mt", args={"prop": "C13"}, tiers=["quick", "thorough"], timeout=1500),
+          dict(cmd="c13mt", args={"prop": "C13"}, flavour="tsan", tier_arg="quick", tiers=["thorough"], timeout=3000, shards=8, env={"TSAN_OPTIONS": "halt_on_error=1 second_deadlock_stack=1"}),
+          dict(cmd="c13mt", args={"prop": "C13"}, flavour="miri", tier_arg="miri", tiers=["thorough"], timeout=3000)],
 )
 
 CHECKS["C18"] = dict(
@@ -48,12 +57,17 @@ CHECKS["C18"] = dict(
           "order. After EVERY step every live handle is re-read (key, value, weight unchanged) and is_outdated() is compared with "
           "'the id has had its leave event'; an LRU Evict event naming an id that was looked up and is still held is a violation; "
           "lookups must return the resident id. Non-trivial = a handle outlived its entry, or an LRU pin blocked an eviction, or an "
-          "entry was evicted while a (non-pinning) handle was held; distinct = hash of (configuration, op sequence)."),
+          "entry was evicted while a (non-pinning) handle was held; distinct = hash of (configuration, op sequence). "
+          "Multi-threaded part (c13mt): every thread re-validates every handle it holds (key, value, weight) after each of its "
+          "ops while other threads replace / remove / clear / resize / evict; after all handles are dropped one more fitting "
+          "insert must bring a single-shard cache within capacity (no leaked pin). Thorough adds ThreadSanitizer."),
     exhaustive_part="every sequence of depth 3 (quick) / 4 (thorough) over the C18 alphabet, 5 algorithms",
     assumptions=MEMSEQ_ASSUME,
     min_nontrivial=50,
     jobs=[dict(cmd="memseq", args={"prop": "C18"}, tiers=["quick", "thorough"], timeout=1500),
-          dict(cmd="memseq", args={"prop": "C18"}, flavour="miri", tier_arg="miri", tiers=["thorough"], timeout=3000)],
+          dict(cmd="memseq", args={"prop": "C18"}, flavour="miri", tier_arg="miri", tiers=["thorough"], timeout=3000),
+          dict(cmd="c13mt", args={"prop": "C18"}, tiers=["quick", "thorough"], timeout=1500),
+          dict(cmd="c13mt", args={"prop": "C18"}, flavour="tsan", tier_arg="quick", tiers=["thorough"], timeout=3000, shards=8, env={"TSAN_OPTIONS": "halt_on_error=1 second_deadlock_stack=1"})],
 )
 
 CHECKS["C14"] = dict(
